@@ -1,26 +1,17 @@
-"""Static per-property configuration of the ./check driver."""
-
-def _b(q, t):
-    return {"quick": q, "thorough": t}
+"""Per-property configuration of the ./check driver: one file per property under tools/cfg/."""
+import importlib.util
+import os
 
 HOOK_COMMITS = ["c60118c", "ee2f7d8"]
 
+# property id -> reason, for properties that are deliberately not claimed
 NOT_APPLICABLE = {}
 
-PROPS = {
-    "C04": {
-        "level": "exploration",
-        "design_ref": "5.4 C04",
-        "technique": "runtime monitoring: reference-model oracle (regexp grammar + math/big precedence) and order-axiom monitors over generated strings, pairs, triples",
-        "level_text": "Every exported semver function is run on ~1.5e6 (quick) / 6e7 (thorough) generated strings, neighbourhood pairs and triples and each result is compared with an independent model; held-on-observed only, no universal claim.",
-        "level_note": "Trusts the regexp transcription of the documented grammar, math/big, and that the generator's neighbourhoods reach the interesting orderings (coverage floors enforce the key ones).",
-        "nbatch": _b(16, 64), "timeout": _b(600, 3000),
-        "rule": "versions from a rule-targeted generator (valid by construction, single-rule mutations, random soup; numeric fields "
-                "up to 40 digits), pairs/triples from one-field neighbourhoods; oracle = anchored regexp of the documented grammar + "
-                "math/big SemVer precedence model + order axioms. A class is distinct by (validity shape | invalid rule broken | "
-                "deciding field x magnitude x sign of a comparison | sign pattern of a triple).",
-        "floors": {"all": [("cmp:pre-num-vs-alpha:-1", 1), ("cmp:pre-num-num-difflen:1", 1), ("cmp:major-big-big:1", 1),
-                           ("cmp:one-invalid:-1", 1), ("invalid:leading-zero-core", 1), ("sort", 1)]},
-        "assumptions": ["regexp transcription of the package doc grammar is correct", "math/big and regexp are correct"],
-    },
-}
+PROPS = {}
+_d = os.path.join(os.path.dirname(os.path.abspath(__file__)), "cfg")
+for _fn in sorted(os.listdir(_d)):
+    if _fn.endswith(".py") and _fn[0] == "C":
+        _spec = importlib.util.spec_from_file_location("cfg_" + _fn[:-3], os.path.join(_d, _fn))
+        _m = importlib.util.module_from_spec(_spec)
+        _spec.loader.exec_module(_m)
+        PROPS[_fn[:-3]] = _m.CFG
